@@ -2261,6 +2261,58 @@ def check_c17(rep, tier, seed, wd, replay):
 
 
 # ------------------------------------------------------------------ C16: Go <-> Python
+PY_HARNESS = os.path.join(cm.VERIF, "tools", "py_harness.py")
+
+
+def py_read_ops(r, topics, times):
+    """the reader operations of one pyread case; the last ones carry a random topic/time filter"""
+    ops = ["op stream skip=0 emit=0 validate=1", "op stream skip=0 emit=1 validate=0",
+           "op ns_messages validate=1 order=log reverse=0", "op ns_messages validate=1 order=log reverse=1",
+           "op ns_messages validate=1 order=file reverse=0", "op ns_header validate=1", "op ns_summary validate=1",
+           "op ns_attachments validate=1", "op ns_metadata validate=1",
+           "op sk_messages validate=1 order=log reverse=0", "op sk_messages validate=1 order=log reverse=1",
+           "op sk_messages validate=1 order=file reverse=0", "op sk_header", "op sk_summary", "op sk_attachments", "op sk_metadata"]
+    for _ in range(2):
+        flt = []
+        if topics and r.random() < 0.7:
+            flt.append("topics=" + ",".join(cm.hx(t) for t in r.sample(topics, r.randint(1, len(topics))) if t))
+        if times and r.random() < 0.7:
+            a, b = r.choice(times), r.choice(times)
+            if r.random() < 0.7:
+                flt.append("start=%d" % min(a, b))
+            if r.random() < 0.7:
+                flt.append("end=%d" % (max(a, b) + r.choice([0, 1])))
+        flt = [x for x in flt if x != "topics="]
+        rd = r.choice(["sk_messages", "sk_messages", "ns_messages"])
+        ops.append("op %s validate=1 order=%s reverse=%d %s" % (rd, r.choice(["log", "log", "file"]), r.random() < 0.4, " ".join(flt)))
+    return [o.rstrip() for o in ops if not ("order=file reverse=1" in o and o.startswith("op sk_"))] + ["op sk_messages validate=0 order=file reverse=1"]
+
+
+def py_corr(rep, cases, wd, tag, mode, replay_of=None):
+    """run the real Python package and the Py.v model on the same script; report disagreements.
+    cases: list of (id, [lines]).  Returns (python outputs, model outputs, number of disagreements)."""
+    env = dict(os.environ, VERIF_REPO=cm.REPO)
+    py, crashed1 = cm.run_sharded(PY_HARNESS, mode, cases, wd, tag + "py", prefix=[sys.executable], extra_env=env, timeout=1200)
+    mo, crashed2 = cm.run_sharded(os.path.join(cm.BUILD, "model"), mode, cases, wd, tag + "mo", timeout=1200)
+    for cmd, rc, err in crashed1 + crashed2:
+        rep.add_violation("executor-crash", "%s exited %s: %s" % (" ".join(cmd[-3:]), rc, err[-600:]), [], failing_input=False)
+    nd = 0
+    for cid, lines in cases:
+        a, b = py.get(cid), mo.get(cid)
+        if a is None or b is None:
+            rep.add_violation("missing-output", "no output for case %s (python %s, model %s)" % (cid, a is not None, b is not None),
+                              ["case " + cid] + lines + ["end"], failing_input=False)
+            continue
+        if a != b:
+            nd += 1
+            k = next((i for i in range(min(len(a), len(b))) if a[i] != b[i]), min(len(a), len(b)))
+            op = next((x for x in reversed(a[:k + 1]) if x.startswith("op ")), "")
+            rep.add_violation("correspondence", "case %s: the Python package and its model (Py.v) differ at output line %d (%s): python %r, model %r"
+                              % (cid, k, op, (a[k] if k < len(a) else "<end>")[:300], (b[k] if k < len(b) else "<end>")[:300]),
+                              ["# mode " + mode, "case " + cid] + lines + ["end"], failing_input=False)
+    return py, mo, nd
+
+
 def py_run(mode, d):
     import subprocess
     import json as js
@@ -2460,10 +2512,83 @@ def check_c16(rep, tier, seed, wd, replay):
                 if c["id"].endswith("_scan") or indexable:
                     probs.append("Go read of a Python-written file ended with %s" % o["end"])
         report_case(rep, c, probs[:2], cr.read_replay)
-    cov = summarize(rep, len(files) + len(pfiles) * 4, len(files) + len(pfiles),
-                    "Go->Python: workloads (valid UTF-8) written by the Go writer in random uncompressed configurations, read by python/mcap NonSeekingReader (always) and SeekingReader (when the summary carries all indexes), CRC validation on: header, messages with channel/schema, attachments, metadata, statistics, log-time order and reverse; Python->Go: workloads written by python/mcap Writer across its options (chunk size, index types, repeated channels/schemas, chunking, statistics, summary offsets, CRCs), decoded by the independent spec decoder and read by the Go lexer, scan, indexed and log-time readers (also compared with the Coq models)",
+    # ---------------- the Python package against its model (Py.v): readers on Go-written, Python-written, reference-encoder
+    # and damaged files; the writer on the Python workloads (byte for byte)
+    pcases = []
+    pyin = {"go_written": 0, "py_written": 0, "arrangements": 0, "damaged": 0}
+    for f in files:
+        topics = sorted(set(c[3] for c in f["calls"] if c[0] == "C"))
+        times = sorted(set(c[3] for c in f["calls"] if c[0] == "M"))
+        pcases.append((f["id"] + "_py", ["file " + cm.hx(f["file"])] + py_read_ops(r, topics, times)))
+        pyin["go_written"] += 1
+    for f in pfiles:
+        topics = sorted(set(c[3].encode() for c in f["w"]["calls"] if c[0] == "C"))
+        times = sorted(set(c[3] for c in f["w"]["calls"] if c[0] == "M"))
+        pcases.append((f["id"] + "_py", ["file " + cm.hx(f["file"])] + py_read_ops(r, topics, times)))
+        pyin["py_written"] += 1
+    for i in range(60 if tier == "quick" else 600):
+        nchunks = r.randint(1, 7)
+        if r.random() < 0.5:
+            ranges = []
+            for k in range(nchunks):
+                lo = r.randint(0, 30)
+                ranges.append((lo, lo + r.randint(0, 12)))
+            L = arrangement(r, nchunks, 4, None, overlap=ranges, empty_channel=r.random() < 0.5)
+        else:
+            L = arrangement(r, nchunks, 4, r.choice([[0, 1, 2, 3], [5, 9, 2**40, 2**64 - 1], list(range(12))]))
+        data, _ = mcapenc.build(L)
+        times = sorted(set(it[1]["log_time"] for ch in L["items"] if ch[0] == "chunk" for it in ch[1]))
+        pcases.append(("c16arr%d_py" % i, ["file " + cm.hx(data)] + py_read_ops(r, list(TOPICS), times)))
+        pyin["arrangements"] += 1
+    base = [f["file"] for f in files[:6]] + [f["file"] for f in pfiles[:6]]
+    for bi, b in enumerate(base):
+        for j in range(16 if tier == "quick" else 80):
+            if j % 2 == 0:
+                d = b[:r.randrange(len(b) + 1)]
+            else:
+                d = bytearray(b)
+                for _ in range(r.randint(1, 3)):
+                    d[r.randrange(len(d))] = r.choice([0, 1, 0xff, r.randrange(256)])
+                d = bytes(d)
+            pcases.append(("c16dmg%d_%d_py" % (bi, j), ["file " + cm.hx(d), "op stream skip=0 emit=0 validate=1", "op ns_messages validate=1 order=file reverse=0",
+                                                       "op sk_messages validate=1 order=log reverse=0", "op sk_summary", "op sk_attachments", "op sk_metadata"]))
+            pyin["damaged"] += 1
+    _, _, nd3 = py_corr(rep, pcases, wd, "c16pr", "pyread")
+    wcases = []
+    for name, w in works:
+        po = w["opts"]
+        lines = ["popts chunk_size=%d idx=%s rc=%d rs=%d chunking=%d stats=%d so=%d crcs=%d dcrcs=%d" % (
+            po["chunk_size"], ",".join(k2 for k, k2 in (("attachment", "att"), ("chunk", "chunk"), ("message", "msg"), ("metadata", "md")) if po["index"][k]) or "none",
+            po["repeat_channels"], po["repeat_schemas"], po["use_chunking"], po["use_statistics"], po["use_summary_offsets"], po["enable_crcs"], po["enable_data_crcs"]),
+            "start profile=%s library=%s" % (cm.hx(w["profile"].encode()), cm.hx(w["library"].encode()))]
+        KV = lambda m: ",".join("%s:%s" % (cm.hx(k.encode()), cm.hx(v.encode())) for k, v in dict(m).items()) or "-"
+        for c in w["calls"]:
+            if c[0] == "S":
+                lines.append("schema name=%s enc=%s data=%s" % (cm.hx(c[2].encode()), cm.hx(c[3].encode()), c[4] or "-"))
+            elif c[0] == "C":
+                lines.append("channel topic=%s menc=%s schema=%d meta=%s" % (cm.hx(c[3].encode()), cm.hx(c[4].encode()), c[2], KV(c[5])))
+            elif c[0] == "M":
+                lines.append("message chan=%d log=%d pub=%d seq=%d data=%s" % (c[1], c[3], c[4], c[2], c[5] or "-"))
+            elif c[0] == "A":
+                lines.append("attachment create=%d log=%d name=%s media=%s data=%s" % (c[2], c[1], cm.hx(c[3].encode()), cm.hx(c[4].encode()), c[5] or "-"))
+            elif c[0] == "D":
+                lines.append("metadata name=%s meta=%s" % (cm.hx(c[1].encode()), KV(c[2])))
+        lines.append("finish")
+        wcases.append((name + "_pw", lines))
+    pyw, _, nd4 = py_corr(rep, wcases, wd, "c16pw", "pywrite")
+    byid = {f["id"]: f for f in pfiles}
+    for name, w in works:
+        got = pyw.get(name + "_pw")
+        f = byid.get(name)
+        if got and f and got != ["out " + cm.hx(f["file"])]:
+            rep.add_violation("harness", "case %s: the two Python writer drivers produced different files" % name, [], failing_input=False)
+    st["py_model_cases"] = dict(pyin, writer=len(wcases))
+    st["py_model_disagreements"] = nd3 + nd4
+    cov = summarize(rep, len(files) + len(pfiles) * 4 + len(pcases) + len(wcases), len(files) + len(pfiles),
+                    "Go->Python: workloads (valid UTF-8) written by the Go writer in random uncompressed configurations, read by python/mcap NonSeekingReader (always) and SeekingReader (when the summary carries all indexes), CRC validation on: header, messages with channel/schema, attachments, metadata, statistics, log-time order and reverse; Python->Go: workloads written by python/mcap Writer across its options (chunk size, index types, repeated channels/schemas, chunking, statistics, summary offsets, CRCs), decoded by the independent spec decoder and read by the Go lexer, scan, indexed and log-time readers (also compared with the Coq models); Python package vs its Coq model (Py.v): StreamReader, NonSeekingReader and SeekingReader (records, messages in file/log/reverse order with topic and time filters, header, summary, attachments, metadata, CRC validation) on all those files plus reference-encoder arrangements with overlapping chunks and truncated/overwritten files, and python Writer output byte for byte",
                     [cw.case_replay({"id": f["id"], "o": f["o"], "calls": f["calls"]})[:6] for f in files[:1]], dict(st, disagreements=nd1 + nd2))
-    return cov, ["the Python implementation is not modelled: it is tied instance-wise through the verified pivot (Go writer/reader models)"]
+    return cov, ["zstandard/lz4 Python modules are absent: compressed chunks raise UnsupportedCompressionError in package and model",
+                 "the Python model covers records.py, data_stream.py, stream_reader.py, reader.py, _message_queue.py, writer.py, _chunk_builder.py over in-memory streams"]
 
 
 # ------------------------------------------------------------------ replay
